@@ -45,7 +45,7 @@ class Contract:
                  types=None, returns=None, trusted=False, inline=False, pure=False, variant=None,
                  may_suspend=False, notes="", self_type=None, env=None, assume_no_raise=(), ghost=(),
                  pre_lemmas=(), post_lemmas=(), verify=True, call_inline=False, abstract=False, yields=None,
-                 rely=(), rely_havoc=(), cancellable=False, ghost_exit=(), hints=(), axioms=()):
+                 rely=(), rely_havoc=(), cancellable=False, ghost_exit=(), hints=(), axioms=(), callee_variant=None):
         self.qualname = qualname
         self.props = tuple(props)
         self.requires = _clauses(requires, props)
@@ -60,6 +60,7 @@ class Contract:
         self.inline = inline
         self.pure = pure
         self.variant = variant          # name of the variant (e.g. rely) - several contracts per function
+        self.callee_variant = callee_variant or variant   # callees are looked up in this variant first
         self.may_suspend = may_suspend
         self.notes = notes
         self.self_type = self_type
@@ -128,7 +129,13 @@ class ContractDB:
     def specfun(self, name, params, body, **kw):
         self.specfuns[name] = SpecFun(name, params, body, **kw)
 
+    active_variant = None
+
     def get(self, qualname):
+        if self.active_variant:
+            c = self.variants.get(qualname + "@" + self.active_variant)
+            if c is not None:
+                return c
         return self.contracts.get(qualname)
 
 
